@@ -36,7 +36,8 @@ UNMODELLED = ["to_span (AST -> Span), SourceMap, shift_left/shift_right, __len__
 
 def _loc(t):
     from guppylang_internals.span import Loc
-    return Loc(*t)
+    # build the file name at run time: equal strings must not have to be the same object
+    return Loc("".join(["src/", t[0], ".py"]), t[1], t[2])
 
 
 def _mk(s, e):
@@ -56,8 +57,12 @@ def _fmt_span(s):
     return _fmt_loc(s[0]) + " " + _fmt_loc(s[1])
 
 
+def _short(f):
+    return f[4:-3] if f.startswith("src/") and f.endswith(".py") else f
+
+
 def _show_real_span(sp):
-    return f"{sp.start.file} {sp.start.line} {sp.start.column} {sp.end.file} {sp.end.line} {sp.end.column}"
+    return f"{_short(sp.start.file)} {sp.start.line} {sp.start.column} {_short(sp.end.file)} {sp.end.line} {sp.end.column}"
 
 
 def _real(req):
